@@ -124,6 +124,9 @@ class SelfDependencyEliminator(ASTStatementRewriter):
                     include_lhs=False)
                 .copy(
                     # lhs will be rewritten, but we don't want that.
+                    # The guard stays as it is: the temporaries are only set
+                    # if it holds.
+                    condition=stmt.condition,
                     depends_on=stmt.depends_on | frozenset(tmp_stmt_ids)))
         new_statements.append(new_stmt)
 
@@ -202,12 +205,15 @@ class StatementFunctionArgumentIsolator(ASTStatementRewriter):
         base_deps = stmt.depends_on
         new_deps = []
 
+        # The guard is not rewritten: it applies to the new statements as is.
         new_statements.append(
-                stmt
+                stmt.copy(condition=True)
                 .map_expressions(
                     lambda expr: fai(
                         expr, stmt.condition, base_deps, new_deps))
-                .copy(depends_on=stmt.depends_on | frozenset(new_deps)))
+                .copy(
+                    condition=stmt.condition,
+                    depends_on=stmt.depends_on | frozenset(new_deps)))
 
         return new_statements
 
@@ -294,12 +300,15 @@ class StatementFunctionCallIsolator(ASTStatementRewriter):
                 stmt_id_gen=self.stmt_id_gen,
                 var_name_gen=self.var_name_gen)
 
+        # The guard is not rewritten: it applies to the new statements as is.
         new_statements.append(
-                stmt
+                stmt.copy(condition=True)
                 .map_expressions(
                     lambda expr: fci(
                         expr, stmt.condition, stmt.depends_on, new_deps))
-                .copy(depends_on=stmt.depends_on | frozenset(new_deps)))
+                .copy(
+                    condition=stmt.condition,
+                    depends_on=stmt.depends_on | frozenset(new_deps)))
         from pymbolic.primitives import Call, CallWithKwargs
         assert not isinstance(new_statements[-1].rhs,
                 (Call, CallWithKwargs))
@@ -406,10 +415,13 @@ class StatementIfThenElseExpander(ASTStatementRewriter):
         base_deps = stmt.depends_on
         new_deps = []
 
+        # The guard is not rewritten: it applies to the new statements as is.
         new_statements.append(
-            stmt.map_expressions(
+            stmt.copy(condition=True).map_expressions(
                 lambda expr: expander(expr, stmt.condition, base_deps, new_deps))
-            .copy(depends_on=stmt.depends_on | frozenset(new_deps)))
+            .copy(
+                condition=stmt.condition,
+                depends_on=stmt.depends_on | frozenset(new_deps)))
 
         return new_statements
 
